@@ -33,6 +33,18 @@ CHECKS = {
             "max_connects cap, returned set exact, no exception; a sample runs against a real World.",
             "The helpers are assumed to use World.connect only; the seed of the global random module is part of the case.",
             "DESIGN.md 4/C18"),
+    "C05": ("exploration",
+            "Hypothesis-generated scenarios x schedules under a controlled asyncio selector (exact deadlock/livelock "
+            "verdicts) + FIFO-deviation-bounded exhaustive schedule enumeration; outcome oracle",
+            "Generated scenarios (group trees, plain/shifted/weak connections, local + in-memory remote transport, "
+            "lazy/cache on/off) with compliant scripted simulators are run under a selector that owns every reply and "
+            "the clock: run() must return; an idle loop with nothing pending is a deadlock, a busy loop without "
+            "events a livelock, any exception an internal error. Micro-topologies get every schedule that deviates "
+            "from FIFO in <= 2 (thorough 3) decision points.",
+            "Scripted simulators; interleavings at event-loop-iteration granularity; until <= 8, <= 5 simulators. Open "
+            "findings F04 (lazy wait cycle) and F05 (incomparable path delays) are excluded by narrow signatures that "
+            "are re-derived per case (differential lazy on/off; reference delay model).",
+            "DESIGN.md 4/C05"),
 }
 
 NOT_YET = {}
